@@ -12,16 +12,20 @@ MaxI(a, b) == IF a >= b THEN a ELSE b
 
 (* ------------------------------- C14 ------------------------------------ *)
 (* input: n nodes 0..n-1 (inserted in that order), edges u -> v with u < v, *)
-(* comp[k] = k + 1, data per `dv` variant, vol(u,v) = u + 2v, name, clock   *)
+(* comp[k] = k + 1, data per `dv` variant, vol(u,v) = (u + 2v) mod 4 (some   *)
+(* edges carry no data), name, clock; rev: every edge reversed (labels then  *)
+(* decrease along every path)                                                *)
 DagEdgeSets(n) == SUBSET {<<u, v>> \in (0..(n - 1)) \X (0..(n - 1)) : u < v}
 PlanInputs ==
-    {[n |-> n, edges |-> es, dv |-> dv, name |-> nm, clock |-> ck] :
+    {[n |-> n, edges |-> es, dv |-> dv, name |-> nm, clock |-> ck, rev |-> rv] :
         n \in 1..4, es \in UNION {DagEdgeSets(m) : m \in 1..4}, dv \in {"none", "all", "odd"},
-        nm \in {"a", "obs_x"}, ck \in {0, 7}}
+        nm \in {"a", "obs_x"}, ck \in {0, 7}, rv \in BOOLEAN}
 ValidPlanInput(x) == x.edges \in DagEdgeSets(x.n)
 HasData(x, k) == x.dv = "all" \/ (x.dv = "odd" /\ k % 2 = 1)
 TaskId(x, k) == x.name \o "_" \o ToString(x.clock) \o "_" \o ToString(k)
-InEdges(x) == {<<e.u, e.v>> : e \in RangeOf(x.edges)}
+RawEdges(x) == {<<e.u, e.v>> : e \in RangeOf(x.edges)}
+InEdges(x) == IF x.rev THEN {<<e.v, e.u>> : e \in RangeOf(x.edges)} ELSE RawEdges(x)
+EdgeVol(u, v) == IF u < v THEN (u + 2 * v) % 4 ELSE (v + 2 * u) % 4
 
 (* x: input as logged (edges as a list of [u, v]); p: the generated plan    *)
 PlanOK(x, p) ==
@@ -38,7 +42,7 @@ PlanOK(x, p) ==
             /\ byk(k).data = IF HasData(x, k) THEN 2 ELSE 0
             /\ RangeOf(byk(k).pred) = {TaskId(x, u) : u \in {u \in N : <<u, k>> \in E}}
             /\ Len(byk(k).pred) = Cardinality({u \in N : <<u, k>> \in E})
-            /\ {<<q.p, q.v>> : q \in RangeOf(byk(k).io)} = {<<TaskId(x, u), u + 2 * k>> : u \in {u \in N : <<u, k>> \in E}}
+            /\ {<<q.p, q.v>> : q \in RangeOf(byk(k).io)} = {<<TaskId(x, u), EdgeVol(u, k)>> : u \in {u \in N : <<u, k>> \in E}}
        /\ Cardinality({ts[i].id : i \in 1..Len(ts)}) = x.n
        /\ \A e \in E : pos(e[1]) < pos(e[2])                 \* topological order
        /\ {<<e.u, e.v>> : e \in RangeOf(p.edges)} = {<<TaskId(x, e[1]), TaskId(x, e[2])>> : e \in E}
@@ -96,7 +100,8 @@ VARIABLE j
 Report(ok, what, k) == IF ok THEN TRUE ELSE PrintT(<<"PURE", what, k>>)
 
 CoverPlan ==
-    LET got == {[n |-> r.x.n, edges |-> InEdges(r.x), dv |-> r.x.dv, name |-> r.x.name, clock |-> r.x.clock] : r \in RangeOf(PData.plan)}
+    LET got == {[n |-> r.x.n, edges |-> RawEdges(r.x), dv |-> r.x.dv, name |-> r.x.name, clock |-> r.x.clock,
+                 rev |-> r.x.rev] : r \in RangeOf(PData.plan)}
     IN {x \in PlanInputs : ValidPlanInput(x)} \subseteq got
 CoverConfig ==
     LET got == {[unit |-> r.x.unit, ui |-> r.x.ui, start |-> r.x.start, dur |-> r.x.dur, rate |-> r.x.rate,
